@@ -80,6 +80,7 @@ eng_isinst = z3.Function("eng_isinst", smt.Ref, smt.Ref, smt.BoolS)  # isinstanc
 uvalid = z3.Function("uvalid", smt.Ref, smt.TagSet, smt.BoolS)  # unary operation well-formed on a target with these columns
 pj_required = z3.Function("pj_required", smt.Ref, smt.TagSet)  # PartialJoin.columns_required
 opreq = z3.Function("opreq", smt.Ref, smt.TagSet)
+opcols = z3.Function("opcols", smt.Ref, smt.TagSet, smt.TagSet)  # column set after a unary operation on a target with columns T
 fvtp = z3.Function("fvtp", SeqRef.sort, smt.IntS, smt.TagSet)  # free columns of the first i sort terms  # columns a unary operation needs on its target
 
 sem = z3.Function("sem", smt.Ref, RS, RS)  # unary operation applied to a row sequence
@@ -118,6 +119,8 @@ class Spec:
         for it in items:
             u = z3.SetUnion(u, fv(it.z))
         st.assume(fvs(c.z) == u)
+        g = z3.Const("g", smt.Ref)
+        st.assume(z3.ForAll([g], all_supp(c.z, g) == z3.And(*[supp(it.z, g) for it in items], z3.BoolVal(True)), patterns=[all_supp(c.z, g)]))
         st.assume(z3.ForAll([rho], all_ev(c.z, rho) == z3.And(*[ev(it.z, rho) for it in items], z3.BoolVal(True)), patterns=[all_ev(c.z, rho)]))
         st.assume(z3.ForAll([rho], any_ev(c.z, rho) == z3.Or(*[ev(it.z, rho) for it in items], z3.BoolVal(False)), patterns=[any_ev(c.z, rho)]))
 
@@ -125,6 +128,8 @@ class Spec:
         if c.z.sort() != SeqRef.sort:
             return
         st.assume(fvs(c.z) == z3.SetUnion(fvs(a.z), fvs(b.z)))
+        g = z3.Const("g", smt.Ref)
+        st.assume(z3.ForAll([g], all_supp(c.z, g) == z3.And(all_supp(a.z, g), all_supp(b.z, g)), patterns=[all_supp(c.z, g)]))
         rho = z3.Const("rho", Row)
         st.assume(z3.ForAll([rho], all_ev(c.z, rho) == z3.And(all_ev(a.z, rho), all_ev(b.z, rho)), patterns=[all_ev(c.z, rho)]))
         st.assume(z3.ForAll([rho], any_ev(c.z, rho) == z3.Or(any_ev(a.z, rho), any_ev(b.z, rho)), patterns=[any_ev(c.z, rho)]))
@@ -133,6 +138,8 @@ class Spec:
         if c.z.sort() != SeqRef.sort:
             return
         st.assume(fvs(c.z) == z3.SetUnion(fvs(a.z), fv(x.z)))
+        g = z3.Const("g", smt.Ref)
+        st.assume(z3.ForAll([g], all_supp(c.z, g) == z3.And(all_supp(a.z, g), supp(x.z, g)), patterns=[all_supp(c.z, g)]))
         rho = z3.Const("rho", Row)
         st.assume(z3.ForAll([rho], all_ev(c.z, rho) == z3.And(all_ev(a.z, rho), ev(x.z, rho)), patterns=[all_ev(c.z, rho)]))
         st.assume(z3.ForAll([rho], any_ev(c.z, rho) == z3.Or(any_ev(a.z, rho), ev(x.z, rho)), patterns=[any_ev(c.z, rho)]))
@@ -181,6 +188,8 @@ class Spec:
             ax.extend(law_axioms(self))
             for p in self.extra_axiom_providers:
                 ax.extend(p(self))
+            for p in self.ex.reg.global_axioms:
+                ax.extend(p(self.ex))
             self._axioms = ax
         return self._axioms
 
@@ -325,6 +334,16 @@ class Spec:
         ax.append(z3.ForAll([x, T], uvalid(x, T) == z3.And(z3.IsSubset(opreq(x), T),
                                                            z3.Implies(typ(x) == cid("Calculation"), z3.Not(z3.IsMember(A("Calculation", "tag")(x), T)))),
                             patterns=[uvalid(x, T)]))
+        def cper(cls, body):
+            ax.append(z3.ForAll([x, T], z3.Implies(typ(x) == cid(cls), opcols(x, T) == body), patterns=[opcols(x, T)]))
+
+        cper("Calculation", z3.SetAdd(T, A("Calculation", "tag")(x)))
+        cper("Projection", A("Projection", "columns")(x))
+        for c in ("Selection", "Sort", "Slice", "Deduplication", "Identity"):
+            cper(c, T)
+        cper("PartialJoin", z3.SetUnion(T, A("BaseRelation", "columns")(A("PartialJoin", "fixed")(x))))
+        XX = z3.Const("XX", RS)
+        ax.append(z3.ForAll([x, XX], z3.Implies(typ(x) != cid("PartialJoin"), rcols(sem(x, XX)) == opcols(x, rcols(XX))), patterns=[sem(x, XX)]))
         jb = A("PartialJoin", "binary")(x)
         fx = A("PartialJoin", "fixed")(x)
         ax.append(z3.ForAll([x], z3.Implies(typ(x) == cid("PartialJoin"),
